@@ -114,12 +114,17 @@ def service(flavour):
 
         # ``__new__`` takes precedence for ``inspect.signature(raw_cls)``: expose the
         # signature of the actual constructor instead of ``(*args, **kwargs)``
+        constructor = __new__
+        while hasattr(constructor, "__service_flavour__"):
+            # the service declaration of a base class: look at what it wraps
+            constructor = constructor.__wrapped_new__
         try:
             __new_service__.__signature__ = inspect.signature(
-                raw_cls.__init__ if __new__ is object.__new__ else __new__
+                raw_cls.__init__ if constructor is object.__new__ else constructor
             )
         except (TypeError, ValueError):
             pass
+        __new_service__.__wrapped_new__ = __new__
         raw_cls.__new__ = __new_service__
         if raw_cls.run.__doc__ is None:
             raw_cls.run.__doc__ = "Service entry point"
